@@ -28,6 +28,7 @@ def shape_tags(prog):
     """coarse, syntactic shape tags of a program; appended to violation keys so that a recorded finding names the
     construct it needs and the same symptom on a program without that construct is still reported"""
     tags = set()
+    comp = dl.sccs(prog)
     for c in prog.clauses:
         outer = set()
         for h in c.heads:
@@ -64,12 +65,60 @@ def shape_tags(prog):
         if any(n >= 2 for n in eqvars.values()):
             tags.add("var-eq-twice")
         for a in aggrs:
+            if aggr_inject_rec(c, a, outer, comp):
+                tags.add("aggr-inject-rec")
             for l in a.body:
                 if isinstance(l, dl.Cmp) and l.op == "=":
                     for side in (l.lhs, l.rhs):
                         if isinstance(side, dl.Var) and side.name in outer:
                             tags.add("aggr-outer-eq")
     return sorted(tags)
+
+
+def aggr_inject_rec(c, a, outer, comp):
+    """an outer variable used in the aggregate body but bound by none of its atoms: souffle grounds it by copying the first
+    outer atom that mentions it into the materialised aggregate clause; if that atom is recursive with the head, the
+    aggregate becomes recursive (MaterializeAggregationQueries: "lower stratum ... (not implemented)")"""
+    inner_all, inner_atom = set(), set()
+    for l in a.body:
+        dl.lit_vars(l, inner_all, False)
+        if isinstance(l, dl.Atom):
+            inner_atom |= {x.name for x in l.args if isinstance(x, dl.Var)}
+    for v in sorted((inner_all & outer) - inner_atom):
+        for l in c.body:
+            if isinstance(l, dl.Atom) and any(isinstance(x, dl.Var) and x.name == v for x in l.args):
+                if any(comp.get(l.rel) == comp.get(h.rel) for h in c.heads):
+                    return True
+                break
+    return False
+
+
+def downstream_of_inject_rec(prog):
+    """relations whose contents depend on a clause with the aggr-inject-rec shape"""
+    comp = dl.sccs(prog)
+    seeds = set()
+    for c in prog.clauses:
+        outer = set()
+        for h in c.heads:
+            dl.lit_vars(h, outer, False)
+        for l in c.body:
+            dl.lit_vars(l, outer, False)
+        aggrs = []
+        for l in list(c.heads) + list(c.body):
+            dl.walk_lit_terms(l, lambda t: aggrs.append(t) if isinstance(t, dl.Aggr) else None)
+        if any(aggr_inject_rec(c, a, outer, comp) for a in aggrs):
+            seeds |= {h.rel for h in c.heads}
+    out = set(seeds)
+    changed = True
+    while changed:
+        changed = False
+        for c in prog.clauses:
+            if any(rn in out for rn, ctx in dl.clause_atoms(c)):
+                for h in c.heads:
+                    if h.rel not in out:
+                        out.add(h.rel)
+                        changed = True
+    return out
 
 
 def run_case(prop, seed, souffle, variants_fn, cfg_fn=base_cfg, base_args=(), base_env=None, probe=None, timeout=120, baseline_args=()):
